@@ -120,10 +120,27 @@ def path_jdd(ctx, cfg):
             ctx.require(eq(sum_(q.values()), 1), "excess-sums-to-one", f"{desc}: q_{i} does not sum to 1",
                         twin=eq(sum_(q.values()), 2), logic="QF_NRA")
     ctx.observe("q", [sorted(((list(k), v) for k, v in q.items()), key=lambda kv: kv[0]) for q in qks])
+    # same support, different probabilities, same process: nothing may be remembered from the first evaluation
+    R = {k: ctx.real(f"R{j}", 0, lo_strict=True) for j, k in enumerate(keys)}
+    avg2 = ctx.guard("mean-raised", AverageJointDegreeFromJDD.get_average_joint_degrees, dict(R))
+    ref2 = [sum_(k[i] * R[k] for k in keys) for i in range(T)]
+    ctx.require(all_(eq(a, b) for a, b in zip(avg2, ref2)) if len(avg2) == T else False, "mean-degree",
+                f"{desc}: second distribution on the same keys: mean joint degree is not its own P-weighted mean", logic="QF_NRA", sig="mean-degree:second-call")
+    qks2 = ctx.guard("excess-raised", JointExcessfromJDD.get_joint_excess_distributions, dict(R))
+    conds = []
+    for i in range(T):
+        for k in keys:
+            if k[i] > 0:
+                ek = tuple(x - (1 if j == i else 0) for j, x in enumerate(k))
+                conds.append(eq(qks2[i][ek] * ref2[i], k[i] * R[k]) if i < len(qks2) and ek in qks2[i] else False)
+    ctx.require(all_(conds), "excess-formula", f"{desc}: second distribution on the same keys: q_i is not k_i P(k)/<k_i>", logic="QF_NRA", sig="excess-formula:second-call")
     # inversion (precondition: some key positive in every topology)
     if not any(all(x > 0 for x in k) for k in keys):
         return
     qd = JointExcessfromJDD.convert_list_qks_to_dict(qks, names)
+    if T > 1 and ctx.fork_bool(ctx.bool("dict_reversed")):
+        qd = dict(reversed(list(qd.items())))  # the dictionary need not have been filled in the order of the names list
+        desc += " (qks dictionary filled in reverse order)"
     inv = ctx.guard("inversion-raised", JointDegreeFromExcess.get_joint_degree_distribution, qd, list(names))
     nonzero = [k for k in keys if any(x > 0 for x in k)]
     Z = sum_(P[k] for k in nonzero)
